@@ -35,6 +35,7 @@ use rustc_middle::ty::{self, Ty, TyCtxt};
 use rustc_span::Span;
 
 pub struct Ctx<'tcx> {
+    pub const_cache: HashMap<DefId, Option<String>>,
     pub tcx: TyCtxt<'tcx>,
     pub types: Vec<String>,
     pub type_ix: HashMap<String, usize>,
@@ -129,7 +130,7 @@ fn vis_str<'tcx>(tcx: TyCtxt<'tcx>, d: DefId) -> String {
 }
 
 fn collect<'tcx>(tcx: TyCtxt<'tcx>) -> J {
-    let mut cx = Ctx { tcx, types: Vec::new(), type_ix: HashMap::new() };
+    let mut cx = Ctx { tcx, types: Vec::new(), type_ix: HashMap::new(), const_cache: HashMap::new() };
     let mut adts = Vec::new();
     let mut impls = Vec::new();
     let mut traits = Vec::new();
@@ -384,6 +385,24 @@ fn eval_const<'tcx>(tcx: TyCtxt<'tcx>, did: DefId) -> Option<String> {
             Err(_) => None,
         },
     }
+}
+
+pub fn eval_const_cached<'tcx>(cx: &mut Ctx<'tcx>, did: DefId) -> Option<String> {
+    if let Some(v) = cx.const_cache.get(&did) {
+        return v.clone();
+    }
+    let generics = cx.tcx.generics_of(did);
+    let v = if generics.own_params.is_empty() && generics.parent_count == 0 {
+        eval_const(cx.tcx, did)
+    } else {
+        None
+    };
+    cx.const_cache.insert(did, v.clone());
+    v
+}
+
+pub fn eval_static_pub<'tcx>(tcx: TyCtxt<'tcx>, did: DefId) -> Option<String> {
+    eval_static(tcx, did)
 }
 
 fn eval_static<'tcx>(tcx: TyCtxt<'tcx>, did: DefId) -> Option<String> {
